@@ -41,4 +41,10 @@ META = {
   "note": "Trusted: Lean kernel; hand-written LTS + poll-level differential harness; tokio Notify semantics (counter snapshot at creation); fair executor (tokio spawn/Semaphore/join_all not modelled).",
   "technique": "Lean 4 theorems (inductive invariant + ranking function over an interleaving LTS) + deterministic-executor correspondence with the real futures",
  },
+ "C15": {
+  "text": "Proved in Lean for all pairs of scanned trees: the mismatched / only-in-source / only-in-destination / error lists are exactly the true sets (a directory is never the counterpart of a file), exit 2 iff some compared file is unreadable, exit 0 iff all lists are empty, and exit 0 iff both sides hold the same files with identical contents. Constants regenerated from source show every mode compares with a real checksum and that the verify body calls no mutating operation. Tied to the code by running the real binary with every --mode on generated pairs (equal size+mtime with different content, file/directory conflicts, empty trees, nested paths) and comparing exit status and all lists with the model and with an oracle computed from snapshots; both trees are snapshotted before/after (read-only).",
+  "design_ref": "DESIGN.md §6 C15",
+  "note": "Trusted: Lean kernel; model + verify stream; checksum collision-freeness; the read-only part is a syntactic constant obligation plus the snapshot oracle.",
+  "technique": "Lean 4 theorem (list characterisations) + differential correspondence with the real binary",
+ },
 }
